@@ -25,6 +25,7 @@ TrConcat == Cfg.concat
 TrMemT == Cfg.memt
 TrOutOvh == Cfg.outovh
 TrMemStop == Cfg.memstop
+TrTell == Cfg.tell
 
 VARIABLE l
 tvars == <<vars, l>>
@@ -34,6 +35,7 @@ IsEvent(e) == l <= Len(TraceLog) /\ TraceLog[l].e = e /\ l' = l + 1
 
 RetName(n) == CASE n = 0 -> "OK" [] n = 1 -> "STREAM_END" [] n = 10 -> "BUF_ERROR" [] n = 9 -> "DATA_ERROR"
                 [] n = 8 -> "OPTIONS_ERROR" [] n = 7 -> "FORMAT_ERROR" [] n = 6 -> "MEMLIMIT_ERROR"
+                [] n = 2 -> "NO_CHECK" [] n = 3 -> "UNSUPPORTED_CHECK" [] n = 4 -> "GET_CHECK"
                 [] n = 5 -> "MEM_ERROR" [] n = 11 -> "PROG_ERROR" [] n = 101 -> "TIMED_OUT" [] OTHER -> "OTHER"
 \* the model abstracts all data-dependent error codes of Blocks to one; exact codes are compared with the
 \* single-threaded decoder by the driver
@@ -90,6 +92,8 @@ TAppReinit == IsEvent("AppReinit") /\ AppReinit
 TReinited == IsEvent("Reinited") /\ Ev.a = 0 /\ m.pc = "out" /\ m.given = 0 /\ m.seq = "HDR" /\ UNCHANGED vars
 \* lzma_memlimit_set(strm, lzma_memusage(strm)) after LZMA_MEMLIMIT_ERROR: a = the new limit, b = its return value
 TAppRaise == IsEvent("MemlimitSet") /\ Ev.b = 0 /\ AppRaise(Ev.a)
+\* lzma_get_check() right after a LZMA_*_CHECK notification: the Check ID of the Stream being decoded
+TGetCheck == IsEvent("GetCheck") /\ m.pc = "out" /\ m.lastRet = Tell /\ Ev.a = Cfg.check /\ UNCHANGED vars
 TFreed == IsEvent("Freed") /\ m.pc = "freed" /\ UNCHANGED vars
 
 TWCheck == /\ IsEvent("WCheck")
@@ -120,7 +124,7 @@ TWFinCoder == /\ IsEvent("WFinCoder") /\ WFinCoder(Ev.w)
               /\ Ev.nsig >= 1
 
 Logged == TReset \/ TCall \/ TRet \/ TRW \/ TRWWake \/ TRWTimeout \/ TStop \/ TStopDone \/ TCreate \/ TTiSetup
-          \/ TTiStart \/ TTiPartial \/ TCopy \/ TPublish \/ TEndSignal \/ TEndJoin \/ TEndDone \/ TAppEnd \/ TAppReinit \/ TAppRaise \/ TReinited \/ TFreed
+          \/ TTiStart \/ TTiPartial \/ TCopy \/ TPublish \/ TEndSignal \/ TEndJoin \/ TEndDone \/ TAppEnd \/ TAppReinit \/ TAppRaise \/ TGetCheck \/ TReinited \/ TFreed
           \/ TWCheck \/ TWWake \/ TWDecode \/ TWPublish \/ TWFinThr \/ TWFreeIn \/ TWFinCoder
 
 \* Direct mode: the Block decoder runs in the main thread without any hook.  A call that completes the Block
